@@ -142,6 +142,11 @@ func (s *Stream) readMore(minSize int) (err error) {
 	// the state must be sampled before the pending data is moved: data which arrives together with the peer's close
 	// right after the move would otherwise be hidden behind an end of stream.
 	isOpen := s.IsOpen()
+	if !isOpen && s.getStreamState() == uint32(streamClosed) {
+		// closed locally: whatever still arrives belongs to the event loop, which recycles it - it must not be moved
+		// into the read buffer (and handed to the caller) any more.
+		return ErrStreamClosed
+	}
 	s.pendingData.moveTo(s.recvBuf)
 	recvLen := s.recvBuf.Len()
 	if recvLen >= minSize {
